@@ -5,7 +5,7 @@ spec/ElidedListTrace.tla  evaluates C05 on every observation
 """
 from .. import core
 
-THRU = [" - ", "-", " – ", " through ", " thru ", " thru. ", " to ", " Through ", " THROUGH ", " Thru ", " THRU ", " To ", " TO ",
+THRU = [" - ", "-", " – ", " — ", " through ", " thru ", " thru. ", " to ", " Through ", " THROUGH ", " Thru ", " THRU ", " To ", " TO ",
         "-\n", " -\n", " through\n", "\nthru "]        # (a list wrapped over two lines)
 AND = [", ", " and ", " & ", ", and ", ",", " And ", " AND "]
 SEC_WORDS = [("Sec", "Secs"), ("Sec.", "Secs."), ("Section", "Sections"), ("Sect.", "Sects."), ("§", "§§")]
@@ -20,6 +20,8 @@ def render_list(nums, conns, kw, words, repeat, rng, sep_after_word=" "):
     word = plur if len(nums) > 1 and rng.random() < 0.8 else sing
     if word == "§§":
         word = "§"
+    if sep_after_word == " " and word[-1] in ".§L" and rng.random() < 0.2:
+        sep_after_word = ""            # 'Sec.14', '§14', 'L1': written tight against the number
     out = word + sep_after_word + str(nums[0])
     for j in range(1, len(nums)):
         c = rng.choice(THRU if conns[j - 1] == "THRU" else AND)
